@@ -1,10 +1,10 @@
 #!/bin/bash
-# tools/confirm3.sh <ID>: round 3. Confirms /tmp/wt/<ID>/out/3 (breaking) and /tmp/wt/<ID>/out/b1 (benign) in that scratch worktree,
+# tools/confirm3.sh <ID> [k ...]: round 3 (default k: 3 b1; k starting with b = behaviour-preserving change). Confirms /tmp/wt/<ID>/out/3 (breaking) and /tmp/wt/<ID>/out/b1 (benign) in that scratch worktree,
 # copies confirmed ones to seeded/<ID>-3 and seeded/benign/<ID>-b1, then runs the property's quick check against the worktree with each
 # patch applied. One summary line per patch.
-id=$1; wt=/tmp/wt/$id; cd /verif
+id=$1; shift; ks="$@"; [ -z "$ks" ] && ks="3 b1"; wt=/tmp/wt/$id; cd /verif
 export PYTHONDONTWRITEBYTECODE=1
-for k in 3 b1; do
+for k in $ks; do
   d=$wt/out/$k; [ -f "$d/patch.diff" ] || { echo "$id-$k: no patch"; continue; }
   git -C $wt checkout -q -- .
   ( cd $wt && PYTHONPATH=$wt/src timeout 120 /venv/bin/python $d/demo.py >/dev/null 2>&1 ); clean=$?
@@ -14,8 +14,10 @@ for k in 3 b1; do
   ( cd $wt && PYTHONPATH=$wt/src timeout 120 /venv/bin/python $d/demo.py >/dev/null 2>&1 ); patched=$?
   ok=no
   if echo "$tests" | grep -q "276 passed" && [ $clean = 0 ]; then
-    if [ $k = 3 ] && [ $patched != 0 ]; then ok=yes; dest=seeded/$id-3; fi
-    if [ $k = b1 ] && [ $patched = 0 ]; then ok=yes; dest=seeded/benign/$id-b1; fi
+    case $k in
+      b*) if [ $patched = 0 ]; then ok=yes; dest=seeded/benign/$id-$k; fi;;
+      *)  if [ $patched != 0 ]; then ok=yes; dest=seeded/$id-$k; fi;;
+    esac
   fi
   if [ $ok = yes ]; then
     mkdir -p $dest; cp $d/patch.diff $d/demo.py $dest/
